@@ -409,3 +409,25 @@ PROPS["C17"] = {
     "quick": [R("TestPropGrafanaNet", 120)],
     "thorough": [R("TestPropGrafanaNet", 600, shards=12, timeout=3000)],
 }
+
+PROPS["C14"] = {
+    "pkg": "c14", "level": "exploration",
+    "rule": ("admin_and_traffic: a CHILD relay-like process (the test binary in worker mode: real table, live TCP sink and HTTP endpoint so that connection-time "
+             "code runs, no recover anywhere) is fed generated 'relay lives': 1-6 admin commands / TOML sections (grammar over every documented "
+             "command and option with values biased to {0,1,2,10,2^31,2^32,2^63-1,2^63,10^20, empty, missing, duplicated}, mutations of the "
+             "documented examples, garbage; TOML aggregations without regex/interval, routes of all carbon types, grafanaNet, rewriters, "
+             "blacklist), metric traffic matching the configured filters on the plain input (valid, invalid, binary junk, 'now'-stamped lines), "
+             "then later admin activity (destination deletions down to zero, modDest/modRoute/delRoute, view) and more traffic, then a settle "
+             "delay. Oracle: the child answers after every life; if it dies, the lives it handled are replayed one per FRESH child with a longer "
+             "settle to attribute delayed crashes, and the culprit is reported with the panic text. pickle_bytes / plain_bytes (in-process, panics "
+             "recovered): mutated CPython pickles (byte flips, truncation, hostile opcodes and lengths, random payloads, wrong frame lengths) and "
+             "random / structured byte streams through input.NewPickle / input.NewPlain -> Table.Dispatch. Non-trivial: >=3 steps of a life were "
+             "accepted (the configuration took effect and then carried traffic); byte-level: non-empty stream. Distinct = hash(steps / bytes)."),
+    "level_text": "Generated configuration + admin + traffic histories applied to a real relay process whose death is the oracle, plus byte-level robustness properties with native fuzzing in the thorough tier; a universal negative is only ever sampled.",
+    "level_note": "kafkaMdm / pubsub / cloudWatch commands are generated only in forms that fail before their constructors need a broker (those call log.Fatalf when the service is unreachable, always the case offline). Buffer SIZES are kept within what a machine can allocate (an absurd size is memory exhaustion on request, not a crash class). A hung worker is restarted, not reported (liveness belongs to C06/C17).",
+    "technique": "property-based testing (rapid) with a crash oracle on a child process (grammar + mutation generators); native go fuzzing of the pickle handler in the thorough tier",
+    "assumptions": ["a panic in any goroutine terminates the relay exactly as it terminates the child", "og-rek is part of the relay's attack surface"],
+    "quick": [R("TestPropAdminAndTraffic", 90, timeout=900), R("TestPropPickleBytes", 3000), R("TestPropPlainBytes", 3000)],
+    "thorough": [R("TestPropAdminAndTraffic", 500, shards=12, timeout=3000), R("TestPropPickleBytes", 30000, shards=2, timeout=3000), R("TestPropPlainBytes", 100000, shards=2, timeout=3000),
+                 F("FuzzPickleHandle", "180s", timeout=1200)],
+}
